@@ -125,10 +125,8 @@ func ensureCanUseORConstraint(node ischema.Node) {
 		return
 	}
 
-	ssl := node.Constraint(constraint.TypesListConstraintType).(*constraint.TypesList)
-	if ssl.HasUserTypes() {
-		panic(errs.ErrInvalidChildNodeTogetherWithOrRule.F())
-	}
+	// A written "or" rule needs a scalar example, whatever the alternatives are.
+	panic(errs.ErrInvalidChildNodeTogetherWithOrRule.F())
 }
 
 func checkBranchNodeWithOrConstraint(schemaNode ischema.Node, jsonNode ischema.BranchNode) {
